@@ -224,10 +224,17 @@ func (pl c12Pl) build() kmip.OperationPayload {
 func (cs *c12Case) message() *kmip.ResponseMessage {
 	m := &kmip.ResponseMessage{Header: kmip.ResponseHeader{ProtocolVersion: kmip.V1_4, TimeStamp: time.Unix(1, 0), BatchCount: cs.Count}}
 	for _, it := range cs.Items {
-		m.BatchItem = append(m.BatchItem, kmip.ResponseBatchItem{
+		bi := kmip.ResponseBatchItem{
 			Operation: kmip.Operation(it.Op), ResultStatus: kmip.ResultStatus(it.Status), ResultReason: kmip.ResultReason(it.Reason),
 			ResultMessage: it.Msg, ResponsePayload: it.Pl.build(),
-		})
+		}
+		if strings.Contains(it.Msg, "[acv]") {
+			// the item also carries an asynchronous correlation value and an item id: how a
+			// failure is reported must not depend on them
+			bi.AsynchronousCorrelationValue = []byte{0xA5, 1, 2, 3}
+			bi.UniqueBatchItemID = []byte{7}
+		}
+		m.BatchItem = append(m.BatchItem, bi)
 	}
 	return m
 }
@@ -608,6 +615,10 @@ var c12Statuses = [][3]any{ // status, reason, message
 	{uint32(3), uint32(9), "undone"},
 	{uint32(9), uint32(0x99), "unknown enums"},
 	{uint32(1), uint32(0x7777), "unknown reason"},
+	{uint32(2), uint32(0), "pending [acv]"},
+	{uint32(2), uint32(5), "pending, not supported"},
+	{uint32(3), uint32(5), "undone, not supported [acv]"},
+	{uint32(9), uint32(5), "unknown status, not supported"},
 }
 
 func c12Other(op kmip.Operation) kmip.Operation {
